@@ -43,6 +43,14 @@ const (
 	kindBatch   = "liar-batch"   // checkpointed: the batch-liar is the only peer at first
 	clCPOnly    = "cp-only-liar" // false filter checkpoint, honest cfheaders (the checkpoint is provably not what its own cfheaders add up to)
 	kindCPOnly  = "checkpoint-only-liar"
+	// clMute announces the true filter hashes and then never answers a
+	// getcfilters or getdata request: it can back up nothing it announced.
+	clMute = "mute-on-filters"
+	// kindOnlyLiars: while the filter headers are first fetched every
+	// connected peer is either a provable liar (all about the SAME block,
+	// with different false hashes, so they contradict each other) or a mute
+	// peer; the honest peers are admitted once all of those are banned.
+	kindOnlyLiars = "only-liars-then-honest"
 	kindLone    = "lone-liar-then-honest"
 	kindOdd     = "liar-about-unparseable-script"
 	kindRace    = "redial-race"
@@ -55,7 +63,11 @@ const (
 	kindMixCP   = "mixed-cp"
 )
 
-var enfKindCycle = []string{kindSvc, kindLiar, kindLiarCP, kindBlock, kindCtl, kindMixed, kindMixCP, kindLate, kindBatch}
+var enfKindCycle = []string{kindSvc, kindLiar, kindLiarCP, kindBlock, kindCtl, kindMixed, kindMixCP, kindLate, kindBatch, kindOnlyLiars}
+
+// enfFixed is the number of FIXED scenarios (k = 0..enfFixed-1); the seeded
+// ones cycle through enfKindCycle from there.
+const enfFixed = 6
 
 // Block mutations of the bad-block server.
 const (
@@ -128,7 +140,7 @@ func (pp EnfPeerPlan) label() string {
 			l += ":late"
 		}
 		return l
-	case clHonest:
+	case clHonest, clSlow:
 		if pp.Late {
 			return pp.Class + ":late"
 		}
@@ -182,8 +194,10 @@ func EnfPlanFromSeed(seed int64, k int) EnfPlan {
 		p.Kind = kindLone
 	case 3:
 		p.Kind = kindOdd
+	case 4, 5:
+		p.Kind = kindOnlyLiars
 	default:
-		p.Kind = enfKindCycle[(k-4)%len(enfKindCycle)]
+		p.Kind = enfKindCycle[(k-enfFixed)%len(enfKindCycle)]
 	}
 	tipLen := 100 + r.Intn(301)
 	cpLen := 1010 + r.Intn(1191)
@@ -272,6 +286,65 @@ func EnfPlanFromSeed(seed int64, k int) EnfPlan {
 		add(EnfPeerPlan{Class: clHonest, Late: true})
 		add(EnfPeerPlan{Class: clHonest, Late: true})
 		return p
+
+	case kindOnlyLiars:
+		wrong := func(h int32) EnfPeerPlan {
+			return EnfPeerPlan{Class: clLiar, Lie: &netsim.Lie{Kind: netsim.LieWrongHash, Height: h}}
+		}
+		if k < enfFixed {
+			// Two FIXED scenarios. 4: two peers announce two different false
+			// filter hashes for the same block (each serves the true filter,
+			// which proves its own announcement false) and nobody else is
+			// there; 5: one such liar and a peer that announces the true hash
+			// and then answers no filter or block request. Two honest peers
+			// are admitted once both are banned.
+			p.ChainLen = 150
+			p.Preset, p.Interval = 0, 8
+			add(wrong(75))
+			if k == 4 {
+				add(wrong(75))
+			} else {
+				add(EnfPeerPlan{Class: clMute})
+			}
+			add(EnfPeerPlan{Class: clHonest, Late: true})
+			add(EnfPeerPlan{Class: clHonest, Late: true})
+			p.Hold = true
+			return p
+		}
+		// Seeded: 2-3 peers none of which can back up what it announced
+		// about one block (the lies are all self-contradicting or unserved:
+		// a liar whose filter matches its false hash would simply be
+		// believed once the others are gone, the lone-liar finding).
+		p.ChainLen = tipLen
+		h := int32(1 + r.Intn(p.ChainLen))
+		unserved := EnfPeerPlan{Class: clLiar, Lie: &netsim.Lie{Kind: netsim.LieUnserved, Height: h}}
+		mute := EnfPeerPlan{Class: clMute}
+		add(wrong(h))
+		switch r.Intn(6) {
+		case 0:
+			add(wrong(h))
+		case 1:
+			add(unserved)
+		case 2:
+			add(mute)
+		case 3:
+			add(wrong(h))
+			add(wrong(h))
+		case 4:
+			add(wrong(h))
+			add(mute)
+		case 5:
+			add(unserved)
+			add(mute)
+		}
+		for i, n := 0, 1+r.Intn(2); i < n; i++ {
+			add(EnfPeerPlan{Class: clHonest, Late: true})
+		}
+		if r.Intn(3) == 0 {
+			sl := slow()
+			sl.Late = true
+			add(sl)
+		}
 
 	case kindSvc:
 		p.ChainLen = tipLen
@@ -422,6 +495,11 @@ func EnfPlanFromSeed(seed int64, k int) EnfPlan {
 	p.Hold = r.Intn(4) != 0 && p.Kind != kindBatch // (the others only come in once the batch liar is banned)
 	if p.has(clBadBlock) {
 		p.GetBlocks = len(p.Peers) + 2
+	}
+	if p.Kind == kindOnlyLiars {
+		// Every peer of the first phase must be in before the client asks
+		// "all peers" for filter headers.
+		p.First, p.AdmitOn, p.Hold = -1, "", true
 	}
 	return p
 }
@@ -586,6 +664,15 @@ func buildEnf(p EnfPlan) *enfWorld {
 					go ep.P.Disconnect()
 				}
 				return false
+			}
+		case clMute:
+			ep.P = w.AddPeer(tip)
+			ep.P.Mutate = func(_ *netsim.Peer, req wire.Message, honest []wire.Message) []wire.Message {
+				switch req.(type) {
+				case *wire.MsgGetCFilters, *wire.MsgGetData:
+					return nil
+				}
+				return honest
 			}
 		case clNoCF:
 			ep.P = w.AddPeer(tip)
